@@ -17,8 +17,8 @@ L += ["", f"**Recorded, not repaired ({len(d['known'])})** — default generator
 for k in d["known"]:
     L.append(f"* **{k['id']}** ({', '.join(k['properties'])}): {k['what']}")
 ids = [k["id"] for k in d["known"]]
-L += ["", "Why the recorded ones were not repaired: F-A, F-B/F-C, F28 and F47 are encoded by pinned tests (the suite must pass unedited);",
-      "F4 needs a directory sync per created file (a design decision, not a small patch); the others (" + ", ".join(i for i in ids if i not in ("F-A", "F-B/F-C", "F28", "F4", "F47")) + ")",
+L += ["", "Why the recorded ones were not repaired: F-A, F-B/F-C, F52, F28 and F47 are encoded by pinned tests (the suite must pass unedited);",
+      "F4 needs a directory sync per created file (a design decision, not a small patch); the others (" + ", ".join(i for i in ids if i not in ("F-A", "F-B/F-C", "F28", "F4", "F47", "F52")) + ")",
       "need more than a small, obviously safe change (per-document de-duplication in hot loops, threading block",
       "ordinals through the sstable reader, the levenshtein prefix DFA, slop accounting).", "",
       "Dropped: four candidates that only existed as `debug_assert!` / overflow-check panics (see 12.1).", "", E]
